@@ -18,8 +18,11 @@ import (
 
 	"github.com/go-kid/ioc/app"
 	"github.com/go-kid/ioc/component_definition"
+	"github.com/go-kid/ioc/configure"
 	"github.com/go-kid/ioc/configure/loader"
 	"github.com/go-kid/ioc/container"
+	"github.com/go-kid/ioc/container/factory"
+	"github.com/go-kid/ioc/container/support"
 	"github.com/go-kid/ioc/definition"
 	"github.com/go-kid/ioc/syslog"
 	pkgerrors "github.com/pkg/errors"
@@ -72,6 +75,9 @@ type ScnCfg struct {
 	// after the lookups, Factory.GetComponents() is called without options: every component, in name order, through
 	// the same doGetComponent as a lookup by name (the lazy ones are created by it)
 	Bulk bool `json:"bulk"`
+	// with Twice: the second start is a RESTART of the same *app.App value (Run again with a fresh registry, factory and
+	// configure) instead of a new App over the same instances
+	SameApp bool `json:"sameapp"`
 }
 
 type Event struct {
@@ -746,14 +752,17 @@ func RunScenario(cfg *ScnCfg) (res Result) {
 	s.Instances = insts
 	Current = s
 	if !cfg.Twice {
-		return runOnce(cfg, s, insts)
+		return runOnce(cfg, s, insts, nil)
 	}
 	// the first of two starts runs without the lookups: they create lazy components and so fill fields of the shared
 	// instances that the second start would then see already set
 	c1 := *cfg
 	c1.Lookups = nil
 	c1.Bulk = false
-	res = runOnce(&c1, s, insts)
+	if cfg.SameApp {
+		c1.Trace = false // the tracer wraps the registry of the factory the App has before Run; a restart replaces it
+	}
+	res = runOnce(&c1, s, insts, nil)
 	if res.Outcome == "ok" || res.Outcome == "err" {
 		// a second container over the same instances (ioc.Register + repeated ioc.Run): nothing of the first start may
 		// leak into the second one, so it must be observed exactly like the first
@@ -764,7 +773,13 @@ func RunScenario(cfg *ScnCfg) (res Result) {
 				bd.WxBase().Got = nil
 			}
 		}
-		res = runOnce(cfg, s, insts)
+		if cfg.SameApp && s.App != nil {
+			c2 := *cfg
+			c2.Trace = false
+			res = runOnce(&c2, s, insts, s.App)
+		} else {
+			res = runOnce(cfg, s, insts, nil)
+		}
 		a, _ := json.Marshal([]any{first.Outcome, first.Log, first.Fields, first.Trace})
 		b, _ := json.Marshal([]any{res.Outcome, res.Log, res.Fields, res.Trace})
 		if string(a) != string(b) {
@@ -776,7 +791,7 @@ func RunScenario(cfg *ScnCfg) (res Result) {
 	return
 }
 
-func runOnce(cfg *ScnCfg, s *Scn, insts []any) (res Result) {
+func runOnce(cfg *ScnCfg, s *Scn, insts []any, reuse *app.App) (res Result) {
 	res.ID = cfg.ID
 	var comps []any
 	order := cfg.RegOrder
@@ -791,7 +806,10 @@ func runOnce(cfg *ScnCfg, s *Scn, insts []any) (res Result) {
 	for _, i := range cfg.Dup {
 		comps = append(comps, insts[i])
 	}
-	a := app.NewApp()
+	a := reuse
+	if a == nil {
+		a = app.NewApp()
+	}
 	s.App = a
 	var tr *tracer
 	if cfg.Trace {
@@ -804,6 +822,9 @@ func runOnce(cfg *ScnCfg, s *Scn, insts []any) (res Result) {
 	var loaders []any
 	_ = loaders
 	opts := []app.SettingOption{app.LogLevel(syslog.LvPanic)}
+	if reuse != nil {
+		opts = append(opts, app.SetRegistry(support.NewRegistry()), app.SetFactory(factory.Default()), app.SetConfigure(configure.Default()))
+	}
 	if cfg.LoaderFail {
 		opts = append(opts, app.SetConfigLoader(loader.NewRawLoader([]byte(cfg.Config)), failLoader{}))
 	} else {
